@@ -187,7 +187,7 @@ def exportImport (g : GSt) (withCore : Bool) : GSt × List String :=
   let coreI := if withCore then [("bet", true), ("market", true), ("orderbook", obOk)] else []
   let houseI := if withCore then [("house", true)] else []
   let imports := [("mint", true)] ++ coreI ++ [("ovm", true)] ++ houseI ++ [("reward", rOk), ("subaccount", sOk)]
-  let invs := (if withCore then [marketInv s, houseInv s, betInv s, obInv s] else []) ++ [ovmInv g.ovm, rewardInv g.reward]
+  let invs := (if withCore then [marketInv s, houseInv s, betInv s, obInv s] else []) ++ [ovmInv g.ovm, rewardInv g.reward, subInvB g.sub (List.range nUsers)]
   let out := verdicts.map (fun v => s!"xv {v.1} {v.2}") ++ imports.map (fun v => s!"xi {v.1} {b01 v.2}") ++
     ["inv" ++ String.join (invs.map (fun x => s!" {b01 x}"))] ++
     (if withCore then dump s3 else []) ++
